@@ -1,29 +1,4 @@
-// ---- hand-written specs (conway.cddl) ----
-// voting_procedure = [ vote, anchor / null ]; vote = 0 .. 2  (no / yes / abstain)
-pub open spec fn VotingProcedure_enc(x: VotingProcedure) -> Seq<Tok> {
-    seq![Tok::Arr(2), Tok::UInt(match x.vote { VoteKind::No => 0, VoteKind::Yes => 1, VoteKind::Abstain => 2 })] + opt_null(x.anchor)
-}
-// credential = [0, addr_keyhash // 1, script_hash]
-pub open spec fn Credential_enc(x: Credential) -> Seq<Tok> {
-    match x.0 { CredType::Key(h) => seq![Tok::Arr(2), Tok::UInt(0), Tok::Bytes(h.bytes_of())], CredType::Script(h) => seq![Tok::Arr(2), Tok::UInt(1), Tok::Bytes(h.bytes_of())] }
-}
-// drep = [0, addr_keyhash // 1, script_hash // 2 // 3]
-pub open spec fn DRepEnum_enc(x: DRepEnum) -> Seq<Tok> {
-    match x {
-        DRepEnum::KeyHash(h) => seq![Tok::Arr(2), Tok::UInt(0), Tok::Bytes(h.bytes_of())],
-        DRepEnum::ScriptHash(h) => seq![Tok::Arr(2), Tok::UInt(1), Tok::Bytes(h.bytes_of())],
-        DRepEnum::AlwaysAbstain => seq![Tok::Arr(1), Tok::UInt(2)],
-        DRepEnum::AlwaysNoConfidence => seq![Tok::Arr(1), Tok::UInt(3)],
-    }
-}
-// voter = [0, addr_keyhash // 1, script_hash // 2, addr_keyhash // 3, script_hash // 4, addr_keyhash]  (cc hot key/script, drep key/script, pool)
-pub open spec fn VoterEnum_enc(x: VoterEnum) -> Seq<Tok> {
-    match x {
-        VoterEnum::ConstitutionalCommitteeHotCred(c) => match c.0 { CredType::Key(h) => seq![Tok::Arr(2), Tok::UInt(0)] + h.enc(), CredType::Script(h) => seq![Tok::Arr(2), Tok::UInt(1)] + h.enc() },
-        VoterEnum::DRep(c) => match c.0 { CredType::Key(h) => seq![Tok::Arr(2), Tok::UInt(2)] + h.enc(), CredType::Script(h) => seq![Tok::Arr(2), Tok::UInt(3)] + h.enc() },
-        VoterEnum::StakingPool(h) => seq![Tok::Arr(2), Tok::UInt(4)] + h.enc(),
-    }
-}
+// ---- hand-written specs (conway.cddl), continued: the enum-shaped ones are in enum_spec.rs (shared with unit de_enums) ----
 // stake_registration = (0, stake_credential) ; reg_cert = (7, stake_credential, coin)
 pub open spec fn StakeRegistration_enc(x: StakeRegistration) -> Seq<Tok> {
     match x.coin { Some(c) => seq![Tok::Arr(3), Tok::UInt(7)] + x.stake_credential.enc() + c.enc(), None => seq![Tok::Arr(2), Tok::UInt(0)] + x.stake_credential.enc() }
